@@ -570,7 +570,7 @@ func main() {
 	out := flag.String("out", "", "cases directory")
 	seed := flag.Uint64("seed", 1, "seed")
 	tier := flag.String("tier", "quick", "tier")
-	stage := flag.String("stage", "bundle", "bundle|artifacts|config")
+	stage := flag.String("stage", "bundle", "bundle|artifacts|config|scan")
 	_ = flag.String("replay", "", "unused: cases are regenerated from the seed")
 	flag.Parse()
 	slog.SetDefault(slog.New(slog.NewTextHandler(io.Discard, nil)))
@@ -582,6 +582,8 @@ func main() {
 		err = artifactsStage(*out, *seed, *tier)
 	case "config":
 		err = configStage(*out, *seed, *tier)
+	case "scan":
+		err = scanStage(*out, *seed, *tier)
 	default:
 		err = fmt.Errorf("unknown stage %q", *stage)
 	}
